@@ -10,7 +10,10 @@ Modelled code (statement by statement, AFTER the `repo_fixes/C10-*.diff` patches
                        identifier setter, `generateIdentifier`, `generateIdentifierForPoint`
   objects/component.py, anchor.py, guideline.py   identifier setter, `generateIdentifier`
   objects/font.py      guidelines, `identifiers`, `setDataFromSerialization` (guidelines)
-  objects/layer.py     `insertGlyph`, `reloadGlyphs`, `loadGlyph` (as far as identifiers go)
+  objects/layer.py     `insertGlyph` (same layer, another layer, another font), `reloadGlyphs`, `loadGlyph`
+                       (as far as identifiers go)
+  objects/glyph.py     `_fullyLoadShallowLoadedContours`, `__len__/__iter__/__getitem__/__contains__`,
+                       `_drawShallowLoadedContours`, `set_shallow_contours` (round 3)
   tools/identifiers.py `makeRandomIdentifier` (candidates are inputs; the retry loop is mirrored)
   pens/glyphObjectPointPen.py, decomposeComponentPointPen.py   incl. `skipConflictingIdentifiers`
   fontTools (ported)   `ReverseContourPointPen._flushContour`, the contour validity rules of
@@ -31,6 +34,13 @@ Refused calls (`rmAbsentPoint`, `rmAbsent`, `rmForeign`, `insAnchorBad`, `insGui
 assignments `setAnchorsBad` / `setGuidesBad` cut short by an invalid dict): the code raises before any
 identifier statement runs (`list.remove`, the membership guards, `Color()` ahead of the identifier in
 `Anchor/Guideline.__init__`); which stranger / which invalid colour is used is the harness's business.
+Round 3: lazily loaded ("shallow") contours.  A glyph read by `Layer.loadGlyph` (`reopen`) keeps its outline as
+recorded pen calls whose identifiers are reserved in the registry (`Glyph.shallow`; `contours` then are the
+records); `deepen` is `_fullyLoadShallowLoadedContours`; `preload` says which glyphs an operation looks at before
+anything else (and therefore loads), `penEnd` loads at the first `endPath` of a drawing, `deserialize` takes the
+records of a shallow source over (`reserve`) and leaves the target shallow; a shallow glyph that is only READ
+(`drawPoints` into another glyph's pen, `copyDataFromGlyph` / `Layer.insertGlyph` from it, decomposition of a
+component that references it, `getDataForSerialization`) stays shallow.  `step = stepL ∘ preload`.
 A re-opened font is modelled as read at once; the harness also leaves it unread until the first
 guideline call (lazy reading of fontinfo.plist), the differential run checks that this is equivalent.
 Domain restrictions shared with the harness (it does not call defcon there): `Contour.reverse`
